@@ -111,6 +111,10 @@ def run_opts(spec, opts, env=None):
         sp = {k: v for k, v in spec.items() if k != 'client_role'}
         return H.client_audit(P.Client(**sp), opts=list(opts))
     srv = make_server({k: v for k, v in spec.items() if k != 'faults'})
+    if env:
+        w = H.world_for(srv, faults=spec.get('faults'))
+        from mc import runner
+        return runner.run_cli(list(opts) + ['--skip-rate-test', H.HOST], w, env=env)
     return H.audit(srv, opts=list(opts) + ['--skip-rate-test'], faults=spec.get('faults'))
 
 
@@ -131,8 +135,27 @@ def line_level(line):
     return {'fail': 2, 'warn': 1, 'good': 0, 'info': 0, 'head': 0}.get(c, 0)
 
 
+EQUIVALENT = [((), {'NO_COLOR': '1'}, ('-n',), None), (('-b',), {'NO_COLOR': ''}, ('-b', '-n'), None), (('-v', '-b', '-n'), None, ('-n', '-b', '-v'), None), (('-n', '-n', '-b', '-b'), None, ('-n', '-b'), None),
+              (('-n', '-l', 'warn', '-l', 'fail'), None, ('-n', '-l', 'fail'), None), (('-l', 'fail', '-n', '-v'), None, ('-v', '-n', '-l', 'fail'), None), (('-j', '-n'), None, ('-n', '-j'), None),
+              (('-jj', '-v', '-b'), None, ('-b', '-v', '-jj'), None), (('-n', '-j', '-jj'), None, ('-n', '-jj'), None), (('--no-colors', '--batch', '--verbose'), None, ('-n', '-b', '-v'), None),
+              (('--json', '-n'), None, ('-j', '-n'), None), (('--level=warn', '-n'), None, ('-l', 'warn', '-n'), None)]
+
+
+def check_equivalent_spellings(pname, spec, st):
+    """the same options in another order, given twice, in their long spelling, or (for colours) through the NO_COLOR variable: same bytes"""
+    if 'zoo' in spec or spec.get('client_role'):
+        return
+    for o1, e1, o2, e2 in EQUIVALENT:
+        a, b = run_opts(spec, o1, env=e1), run_opts(spec, o2, env=e2)
+        st.execution(a.world, outcome=(pname, 'spelling', a.status), root=(pname, 'spelling', o1, str(e1)), nontrivial=(pname, 'spelling', o1, str(e1)))
+        if a.stdout != b.stdout or a.status != b.status:
+            st.violation('equivalent-option-spellings-differ:%s' % (' '.join(o1) + (' env:' + ','.join(sorted(e1)) if e1 else '')), {'peer': pname, 'a': list(o1), 'env_a': e1, 'b': list(o2), 'status': [a.status, b.status]})
+
+
 def check_peer(task, st, osets=None):
     pname, spec = task
+    if osets is None:
+        check_equivalent_spellings(pname, spec, st)
     ref = run_opts(spec, ['-n'])
     ref_findings = text_findings(ref, False)
     st.execution(ref.world, outcome=(pname, ref.status), root=(pname, 'ref'))
